@@ -757,3 +757,7 @@ mod tests {
             });
     }
 }
+
+#[cfg(all(aws_s2n_quic_verif, any(test, all(kani, feature = "testing"))))]
+#[path = "/verif/harness/transport/fin_state.rs"]
+mod verif;
